@@ -1,5 +1,6 @@
 """Entry-point families, discovered structurally (by what a body calls), anchored by name floors."""
 from mir import canon
+import mir
 import sem
 
 CI = 'internal::ChannelInternal::'
@@ -45,20 +46,35 @@ def send_bodies(ctx):
     trig = {CI + 'next_recv', CI + 'push_send', TERM + 'send'}
     out = []
     for key, b in ctx.facts.bodies.items():
-        if is_helper_body(key):
+        if is_helper_body(key) or mir.inlinable(b):
             continue
-        if calls_any(b, trig):
+        if calls_any_deep(ctx, b, trig):
             out.append(b)
     return out
+
+
+def calls_any_deep(ctx, body, names, depth=0):
+    """does the body, or a private helper it splices in, call one of `names`"""
+    if calls_any(body, names):
+        return True
+    if depth >= mir.MAX_INLINE_DEPTH:
+        return False
+    for bb, t in body.all_calls():
+        fn = t.get('fn')
+        if fn and fn.get('local'):
+            c = ctx.facts.bodies.get(fn['path'])
+            if c is not None and c is not body and mir.inlinable(c) and calls_any_deep(ctx, c, names, depth + 1):
+                return True
+    return False
 
 
 def recv_bodies(ctx):
     trig = {CI + 'next_send', CI + 'push_recv', TERM + 'recv'}
     out = []
     for key, b in ctx.facts.bodies.items():
-        if is_helper_body(key):
+        if is_helper_body(key) or mir.inlinable(b):
             continue
-        if calls_any(b, trig):
+        if calls_any_deep(ctx, b, trig):
             out.append(b)
     return out
 
